@@ -8,6 +8,7 @@
 package c12
 
 import (
+	"bufio"
 	"bytes"
 	"compress/flate"
 	"fmt"
@@ -362,9 +363,11 @@ type srcPlan struct {
 	Chunks      []int
 	ByteReader  bool
 	EOFWithData bool
-	Std         int // 0: tx source; 1: bytes.Reader; 2: bytes.Buffer wrapped to hide ReadByte
+	Std         int // 0: tx source; 1: bytes.Reader; 2: bytes.Reader wrapped to hide ReadByte; 3: bufio.Reader over the tx source
 	ReadBuf     int
-	Reuse       int // 0: fresh Reader; 1: Reader that decoded another message before, then Reset; 2: Reset after a partial read
+	Reuse       int // 0: fresh Reader; 1: the Reader handled another message before and was Reset
+	PrevKind    int // index into prevMessages
+	PrevSrc     int // 0 bytes.Reader, 1 plain (ReadByte hidden), 2 chunked io.ByteReader, 3 chunked plain, 4 bufio.Reader
 }
 
 func genSrcPlan(t *rapid.T, label string) srcPlan {
@@ -372,9 +375,11 @@ func genSrcPlan(t *rapid.T, label string) srcPlan {
 		Chunks:      gen.Chunks(t, label+".chunks"),
 		ByteReader:  rapid.Bool().Draw(t, label+".bytereader"),
 		EOFWithData: rapid.Bool().Draw(t, label+".eofwithdata"),
-		Std:         rapid.SampledFrom([]int{0, 0, 0, 0, 1, 2}).Draw(t, label+".std"),
+		Std:         rapid.SampledFrom([]int{0, 0, 0, 0, 1, 2, 3}).Draw(t, label+".std"),
 		ReadBuf:     rapid.SampledFrom([]int{1, 2, 7, 64, 512, 4096, 40000}).Draw(t, label+".readbuf"),
-		Reuse:       rapid.SampledFrom([]int{0, 0, 0, 0, 1, 2}).Draw(t, label+".reuse"),
+		Reuse:       rapid.SampledFrom([]int{0, 0, 1}).Draw(t, label+".reuse"),
+		PrevKind:    rapid.IntRange(0, len(prevMessages)-1).Draw(t, label+".prevkind"),
+		PrevSrc:     rapid.IntRange(0, 4).Draw(t, label+".prevsrc"),
 	}
 }
 
@@ -384,6 +389,8 @@ func (s srcPlan) class() string {
 		return "bytes.Reader"
 	case 2:
 		return "plain-unchunked"
+	case 3:
+		return "bufio"
 	}
 	c := "plain/"
 	if s.ByteReader {
@@ -394,14 +401,50 @@ func (s srcPlan) class() string {
 
 type onlyReader struct{ io.Reader }
 
-// warmup is "warm-up message" sync-flushed by compress/flate, tail stripped.
-var warmup = func() []byte {
-	var b bytes.Buffer
-	fw, _ := flate.NewWriter(&b, 6)
-	fw.Write([]byte("warm-up message"))
-	fw.Flush()
-	return b.Bytes()[:b.Len()-4]
+// prevMessages: what a reused Reader handled before its Reset.
+type prevMessage struct {
+	Name       string
+	Compressed []byte
+	Want       []byte
+	ReadOnly   int // > 0: the application abandons the message after this many bytes
+}
+
+var prevMessages = func() []prevMessage {
+	deflate := func(p []byte, closeIt bool) []byte {
+		var b bytes.Buffer
+		fw, _ := flate.NewWriter(&b, 6)
+		fw.Write(p)
+		if closeIt {
+			fw.Close()
+		} else {
+			fw.Flush()
+		}
+		return append([]byte(nil), b.Bytes()[:b.Len()-4]...)
+	}
+	warm := []byte("warm-up message")
+	large := randomBytes(77, 100<<10)
+	return []prevMessage{
+		{"sync-flushed, read to the end", deflate(warm, false), warm, 0},
+		{"ended by Close without Flush (final block), read to the end", deflate(warm, true), warm, 0},
+		{"RFC 7692 §7.2.3.4 BFINAL form with the trailing 00, read to the end", []byte{0xf3, 0x48, 0xcd, 0xc9, 0xc9, 0x07, 0x00, 0x00}, []byte("Hello"), 0},
+		{"large message abandoned after its first bytes", deflate(large, false), large, 10},
+		{"small message abandoned after 3 bytes", deflate(warm, false), warm, 3},
+	}
 }()
+
+func prevSource(kind int, b []byte) io.Reader {
+	switch kind {
+	case 0:
+		return bytes.NewReader(b)
+	case 1:
+		return onlyReader{bytes.NewReader(b)}
+	case 2:
+		return tx.ByteSrc{Src: tx.NewSrc(b, []int{3, 1, 7})}
+	case 3:
+		return tx.NewSrc(b, []int{3, 1, 7})
+	}
+	return bufio.NewReaderSize(tx.NewSrc(b, []int{5}), 16)
+}
 
 // decompress is oracle B's subject: wsflate.Reader over the compressed message
 // served as the plan says. It returns the recovered bytes and a problem.
@@ -417,7 +460,9 @@ func decompress(compressed []byte, s srcPlan) ([]byte, string) {
 		ts = tx.NewSrc(compressed, s.Chunks)
 		ts.EOFWithData = s.EOFWithData
 		src = ts
-		if s.ByteReader {
+		if s.Std == 3 {
+			src = bufio.NewReaderSize(ts, 16)
+		} else if s.ByteReader {
 			src = tx.ByteSrc{Src: ts}
 		}
 	}
@@ -426,13 +471,15 @@ func decompress(compressed []byte, s srcPlan) ([]byte, string) {
 		rd = wsflate.NewReader(src, flateDtor)
 	} else {
 		// documented reuse: "Reader might be reused for different io.Reader objects after its Reset()"
-		rd = wsflate.NewReader(bytes.NewReader(warmup), flateDtor)
-		if s.Reuse == 1 {
-			if p, err := io.ReadAll(rd); err != nil || string(p) != "warm-up message" {
-				return nil, fmt.Sprintf("warm-up message: %q, %v", p, err)
+		pm := prevMessages[s.PrevKind]
+		rd = wsflate.NewReader(prevSource(s.PrevSrc, pm.Compressed), flateDtor)
+		if pm.ReadOnly > 0 {
+			p := make([]byte, pm.ReadOnly)
+			if n, err := io.ReadFull(rd, p); err != nil || !bytes.Equal(p[:n], pm.Want[:n]) {
+				return nil, fmt.Sprintf("previous message (%s, source kind %d): first %d bytes: %x, %v", pm.Name, s.PrevSrc, pm.ReadOnly, p[:n], err)
 			}
-		} else {
-			rd.Read(make([]byte, 3))
+		} else if p, err := io.ReadAll(rd); err != nil || !bytes.Equal(p, pm.Want) {
+			return nil, fmt.Sprintf("previous message (%s, source kind %d): %q, %v", pm.Name, s.PrevSrc, p, err)
 		}
 		rd.Reset(src)
 	}
@@ -577,6 +624,11 @@ func TestRoundTrip(t *testing.T) {
 		hx.Class("roundtrip/level=" + levelName(level))
 		hx.Class("roundtrip/src=" + plan1.class())
 		hx.Class("roundtrip/src=" + plan2.class())
+		for _, pl := range []srcPlan{plan1, plan2} {
+			if pl.Reuse != 0 {
+				hx.Class(fmt.Sprintf("roundtrip/reader-reused/prev-kind=%d/prev-src=%d", pl.PrevKind, pl.PrevSrc))
+			}
+		}
 		if len(payload) > 0 && (pat.Writes >= 2 || pat.Flushes >= 2 || big) {
 			hx.NonTrivial(hx.Hash("rt", class, len(payload), pat.String(), fmt.Sprint(pat.sizes()), level, plan1.class(), plan2.class()), func() interface{} {
 				return map[string]interface{}{"test": "roundtrip", "payload_class": class, "payload_len": len(payload), "ops": pat.String(),
